@@ -13,7 +13,7 @@ import (
 )
 
 var pureIntrinsics = map[string]bool{
-	"unicode.IsLetter": true, "unicode.IsMark": true,
+	"unicode.IsLetter": true, "unicode.IsMark": true, "unicode.IsDigit": true, "unicode.IsNumber": true, "unicode.IsSpace": true, "unicode.IsUpper": true, "unicode.IsLower": true, "unicode.IsPunct": true,
 	"math.Abs": true, "math.Sqrt": true, "math.Round": true, "math.Floor": true, "math.Ceil": true, "math.Trunc": true, "math.IsNaN": true, "math.Signbit": true,
 }
 
